@@ -17,6 +17,7 @@ macro_rules! dispatch {
             "C04" => $f(&props::c04::C04, $($arg),*),
             "C05" => $f(&props::c05::C05, $($arg),*),
             "C06" => $f(&props::c06::C06, $($arg),*),
+            "C07" => $f(&props::c07::C07, $($arg),*),
             "C08" => $f(&props::c08::C08, $($arg),*),
             "C09" => $f(&props::c09::C09, $($arg),*),
             "C10" => $f(&props::c10::C10, $($arg),*),
